@@ -10,6 +10,7 @@ import (
 	"encoding/json"
 	"errors"
 	"fmt"
+	"io"
 	"math/rand"
 	"net"
 	"net/http"
@@ -49,7 +50,7 @@ type Rec struct {
 	Tunnelled   bool     `json:"tunnelled"`
 }
 
-func p32(v int32) *int32 { return &v }
+func p32(v int32) *int32  { return &v }
 func ps(v string) *string { return &v }
 
 var sharedErrors = []*common.ErrorResponse{
@@ -436,4 +437,93 @@ func SharedErrorsIntact() string {
 		}
 	}
 	return ""
+}
+
+// ---------------------------------------------------------------------------------------------
+// one caller-owned header map handed to every request
+
+type stubTransport struct{}
+
+func (stubTransport) RoundTrip(req *http.Request) (*http.Response, error) {
+	if req.Body != nil {
+		_, _ = io.Copy(io.Discard, req.Body)
+		req.Body.Close()
+	}
+	h := http.Header{"X-Restli-Protocol-Version": {"2.0.0"}, "Content-Type": {"application/json"}}
+	return &http.Response{StatusCode: 200, Header: h, Body: io.NopCloser(strings.NewReader(`{"ok":true}`)), Request: req}, nil
+}
+
+// SharedExtraHeaders issues n requests of mixed kinds from several goroutines; every request gets the SAME header map
+// from its ExtraRequestHeaders callback (the way a static auth header is usually supplied). What each request carries
+// on the wire must be what a request of its kind carries when it is the only one ever made, and the caller's map must
+// come back untouched.
+func SharedExtraHeaders(seed int64, n, goroutines int) (problems []string, compared int) {
+	static := http.Header{"X-Auth": {"token-of-the-caller"}}
+	base, _ := url.Parse("http://stub.invalid")
+	type want struct{ verb, method, ctype, override string }
+	expect := map[string]want{
+		"get":            {"GET", "get", "", ""},
+		"get-long":       {"POST", "get", "application/x-www-form-urlencoded", "GET"},
+		"update":         {"PUT", "update", "application/json", ""},
+		"partial_update": {"POST", "partial_update", "application/json", ""},
+		"delete":         {"DELETE", "delete", "", ""},
+	}
+	kindsHere := []string{"get", "get-long", "update", "partial_update", "delete"}
+	var mu sync.Mutex
+	var wg sync.WaitGroup
+	next := make(chan int, n)
+	for i := 0; i < n; i++ {
+		next <- i
+	}
+	close(next)
+	for g := 0; g < goroutines; g++ {
+		wg.Add(1)
+		go func(g int) {
+			defer wg.Done()
+			for i := range next {
+				kind := kindsHere[(i*7+int(seed))%len(kindsHere)]
+				tk := fmt.Sprintf("zq%dx", i)
+				t := &kit.Typed{Base: base, Threshold: 300, Transport: stubTransport{}, Extra: static}
+				q := "p=" + tk
+				body := []byte(fmt.Sprintf(`{"v":%q}`, tk))
+				var wire *kit.Wire
+				var err error
+				switch kind {
+				case "get":
+					_, wire, err = t.Get("things", "/things/"+tk, &q)
+				case "get-long":
+					long := q + "&pad=" + strings.Repeat("a", 400)
+					_, wire, err = t.Get("things", "/things/"+tk, &long)
+				case "update":
+					wire, err = t.Update("things", "/things/"+tk, body)
+				case "partial_update":
+					wire, err = t.PartialUpdate("things", "/things/"+tk, []byte(`{"patch":{"$set":{"v":"`+tk+`"}}}`))
+				case "delete":
+					wire, err = t.Delete("things", "/things/"+tk)
+				}
+				w := expect[kind]
+				p := ""
+				switch {
+				case err != nil:
+					p = fmt.Sprintf("%s %s: client error %v", kind, tk, err)
+				case wire == nil:
+					p = fmt.Sprintf("%s %s: nothing sent", kind, tk)
+				case wire.Method != w.verb || wire.Header.Get("X-RestLi-Method") != w.method || wire.Header.Get("Content-Type") != w.ctype || wire.Header.Get("X-HTTP-Method-Override") != w.override ||
+					len(wire.Header.Values("X-RestLi-Method")) != 1 || len(wire.Header.Values("X-Auth")) != 1 || !strings.Contains(wire.Target+wire.Body, tk):
+					p = fmt.Sprintf("%s %s went out as %s %s with headers %v (a lone %s request: %s, X-RestLi-Method %q, Content-Type %q, override %q)", kind, tk, wire.Method, wire.Target, wire.Header, kind, w.verb, w.method, w.ctype, w.override)
+				}
+				mu.Lock()
+				compared++
+				if p != "" && len(problems) < 6 {
+					problems = append(problems, p)
+				}
+				mu.Unlock()
+			}
+		}(g)
+	}
+	wg.Wait()
+	if len(static) != 1 || len(static["X-Auth"]) != 1 || static.Get("X-Auth") != "token-of-the-caller" {
+		problems = append(problems, fmt.Sprintf("the caller's header map was modified: %v", static))
+	}
+	return problems, compared
 }
